@@ -150,6 +150,7 @@ func c08Races(quick bool) []c08Race {
 		{name: "disconnect-vs-reattach-delay0", delay: 0, ending: 1, clean: false, version: refmqtt.V5},
 		{name: "willtimer-vs-reattach-delay5", delay: 5, ending: 0, clean: false, timer: true, version: refmqtt.V5},
 		{name: "takeover-only-delay5-cleanstart", delay: 5, ending: 3, clean: true, version: refmqtt.V5},
+		{name: "willtimer-vs-cleanstart-delay5", delay: 5, ending: 0, clean: true, timer: true, version: refmqtt.V5},
 	}
 	if !quick {
 		rs = append(rs,
@@ -157,7 +158,6 @@ func c08Races(quick bool) []c08Race {
 			c08Race{name: "disconnect-vs-cleanstart-delay5", delay: 5, ending: 1, clean: true, version: refmqtt.V5},
 			c08Race{name: "close-vs-reattach-v3", delay: 0, ending: 0, clean: false, version: refmqtt.V311},
 			c08Race{name: "takeover-only-delay0", delay: 0, ending: 3, clean: false, version: refmqtt.V5},
-			c08Race{name: "willtimer-vs-cleanstart-delay5", delay: 5, ending: 0, clean: true, timer: true, version: refmqtt.V5},
 		)
 	}
 	return rs
